@@ -13,7 +13,7 @@ EXPLANATION = ("R1: typestate analysis (abstract interpretation of the source of
                "conformant-server deliveries) - reports every reachable undeclared (state,input) pair and every "
                "reachable failing assertion on a tracked attribute. R2: CFG rule - the catch-all handlers of "
                "RendezvousConnector.ws_message/ws_open call Boss.error on every path.")
-TRUSTED_BASE = ["T1", "T3", "T4"]
+TRUSTED_BASE = ["T1", "T3", "T4", "T5"]
 MIN_OBLIGATIONS = 6
 
 RDV = "src/wormhole/_rendezvous.py"
@@ -129,9 +129,18 @@ def r3(tree, rep):
         raise AnalysisError("no transition both records state and fires waiting Deferreds")
 
 
+def r4(tree, rep, tier):
+    """the dilation control plane (Manager, TrafficTimer, Connector of both sides, engine A5): no undeclared pair, no failing assertion"""
+    from .. import a5common
+    sums = a5common.explorations(tree, tier, rep)
+    a5common.fill_extra(rep, sums)
+    a5common.report(rep, "C14.R4", sums, a5common.INTERNAL)
+
+
 def run(tree, rep, tier):
     r2(tree, rep)
     r3(tree, rep)
+    r4(tree, rep, tier)
     r1(tree, rep, tier)
 
 
